@@ -1,7 +1,9 @@
 """C06 on implementation traces: when the simulation goes quiescent with both sockets of an
 established connection still open, every byte accepted by a write has been delivered to the
 reader that keeps reading, no write is pending, connects to a listening acceptor with an
-accept outstanding have completed."""
+accept outstanding have completed; and (whether or not the run ended by quiescence) no connect,
+accept, write or read completed with an error while nothing was closed, cancelled or destroyed
+(clause no_spurious_error; a failed connect/accept is reported as connect_completes)."""
 import re
 
 def _kv(tk):
@@ -12,6 +14,14 @@ def _kv(tk):
     return d
 
 def check(impl, scn):
+    try:
+        return _check(impl, scn)
+    except Exception as e:                      # a monitor never raises; its own failure is reported as such
+        import traceback
+        return [("monitor-error", repr(e) + " " + traceback.format_exc()[-300:].replace("\n", " | "))]
+
+
+def _check(impl, scn):
     fails = []
     wl = {}; rl = {}       # handler -> dict
     closed = set()
@@ -24,6 +34,10 @@ def check(impl, scn):
             if op.endswith(".read_loop"):
                 rl[tk[3]] = dict(sock=op.split(".")[0], got=0, started=False, ended=False)
     quiescent = False; stopped = False; conn = {}; crashed = False
+    errs = []        # completions of write / read operations with an error code
+    conn_sock = {}   # connect / accept handler -> the socket it establishes
+    established = set()
+    listening = False; accept_posted = False; conn_bad = []
     pw = {}          # plain writes: handler -> dict(sock, stream, len, n=None)
     for ln in impl:
         tk = ln.split()
@@ -41,22 +55,45 @@ def check(impl, scn):
                 if m == "read_loop" and op[1] in rl: rl[op[1]]["started"] = True
                 if m == "write" and len(op) > 1:
                     d = _kv(op[2:]); pw[op[1]] = dict(sock=o, stream=d.get("stream"), len=int(d.get("len", 0)), n=None)
-                if m == "connect": conn[op[2]] = None
-                if m in ("accept", "accept_ep"): conn[op[2]] = None
+                if m == "listen" and tk[-1] == "ok": listening = True
+                if m in ("accept", "accept_ep") and listening: accept_posted = True
+                if m == "connect" and len(op) > 2: conn[op[2]] = None; conn_sock[op[2]] = o
+                if m in ("accept", "accept_ep") and len(op) > 2: conn[op[2]] = None; conn_sock[op[2]] = op[1]
         if tk[0] == "H":
             d = _kv(tk[2:]); h = tk[1]
             if h in wl:
                 wl[h]["got"] += int(d.get("n", 0))
-                if d.get("ec") != "ok": wl[h]["done"] = True
+                if d.get("ec") != "ok":
+                    wl[h]["done"] = True
+                    if wl[h]["sock"] in established: errs.append(("write loop", wl[h]["sock"], ln))
             if h in rl:
                 rl[h]["got"] += int(d.get("n", 0))
-                if d.get("ec") != "ok": rl[h]["ended"] = True
-            if h in conn: conn[h] = d.get("ec")
-            if h in pw: pw[h]["n"] = int(d.get("n", 0)) if d.get("ec") == "ok" else -1
+                if d.get("ec") != "ok":
+                    rl[h]["ended"] = True
+                    if rl[h]["sock"] in established: errs.append(("read loop", rl[h]["sock"], ln))
+            if h in conn:
+                conn[h] = d.get("ec")
+                if d.get("ec") == "ok": established.add(conn_sock.get(h))
+                elif listening and accept_posted: conn_bad.append(h)
+            if h in pw:
+                pw[h]["n"] = int(d.get("n", 0)) if d.get("ec") == "ok" else -1
+                if d.get("ec") != "ok" and pw[h]["sock"] in established: errs.append(("write", pw[h]["sock"], ln))
         if tk[0] == "R" and " n=" in ln:
             quiescent = not stopped
-    if crashed or not quiescent: return fails
+    if crashed: return fails
     if closed: return fails          # the property speaks about sockets that stay open
+    # nobody closes, cancels or destroys anything in this run: an operation that completes with an error
+    # ends the transfer for good -- the bytes accepted so far can no longer reach "a reader that keeps
+    # reading", the writer's remaining bytes are never accepted, the connect did not "complete" -- however
+    # the error is worded (eof, reset, timed out, aborted). Without this clause an error completion
+    # would merely switch the progress clauses below off.
+    for what, sock, ln in errs[:3]:
+        fails.append(("no_spurious_error", "%s on %s (whose connect / accept had completed with success) completed with an error although no socket was closed, cancelled or destroyed: %s" % (what, sock, ln)))
+    for h in conn_bad:
+        ec = conn[h]
+        if True:
+            fails.append(("connect_completes", "%s (connect/accept) completed with ec=%s although the acceptor listens with an accept outstanding and nothing was closed" % (h, ec)))
+    if not quiescent: return fails
     for h, ec in conn.items():
         if ec is None:
             fails.append(("connect_completes", "%s (connect/accept) never completed although the acceptor listens with an accept outstanding" % h))
